@@ -40,17 +40,18 @@ type vfReadRec struct {
 
 // vfScriptReader delivers spec.Body cut at the given offsets and ends per spec.End.
 type vfScriptReader struct {
-	body      []byte
-	cuts      []int
-	end       string
-	pos       int
-	closed    int
-	closeErr  error
-	truncated int // for end=error: number of bytes delivered before the error
+	body        []byte
+	cuts        []int
+	end         string
+	pos         int
+	closed      int
+	closeErr    error
+	truncated   int // for end=error: number of bytes delivered before the error
+	errWithData bool
 }
 
 func vfNewScriptReader(spec vfBodySpec, cuts []int) *vfScriptReader {
-	r := &vfScriptReader{body: spec.Body, cuts: append([]int{}, cuts...), end: spec.End, truncated: len(spec.Body)}
+	r := &vfScriptReader{body: spec.Body, cuts: append([]int{}, cuts...), end: spec.End, truncated: len(spec.Body), errWithData: spec.ErrWithData}
 	sort.Ints(r.cuts)
 	return r
 }
@@ -77,6 +78,9 @@ func (r *vfScriptReader) Read(p []byte) (int, error) {
 	r.pos = end
 	if r.pos >= len(r.body) && r.end == "eof-with-data" {
 		return n, io.EOF
+	}
+	if r.pos >= len(r.body) && r.end == "error" && r.errWithData {
+		return n, errVerifBody
 	}
 	return n, nil
 }
@@ -472,7 +476,8 @@ func vfGenBody(t *rapid.T, label string, response bool) vfBodySpec {
 	_ = proto
 	body := buf.Bytes()
 	// truncation
-	spec.End = rapid.SampledFrom([]string{"eof", "eof", "eof-with-data", "error", "close-early"}).Draw(t, label+"-end")
+	spec.End = rapid.SampledFrom([]string{"eof", "eof", "eof-with-data", "error", "error", "close-early"}).Draw(t, label+"-end")
+	spec.ErrWithData = spec.End == "error" && rapid.Bool().Draw(t, label+"-errWithData")
 	if len(body) > 0 && rapid.IntRange(0, 2).Draw(t, label+"-truncate") == 0 {
 		var at int
 		switch rapid.IntRange(0, 2).Draw(t, label+"-trunckind") {
